@@ -222,4 +222,174 @@ def k2(ctx, kr):
     kr.bounds = 'buffer tail of 0..2 symbolic ASCII bytes, indent level 0..2, one lexeme'
     kr.exhaustive = True
 
-KERNELS = [k1, k2]
+
+# ---------------------------------------------------------------------------------------------- K3 structural round trip over template shapes
+# template = list of segments: str | ('opt', text) | ('alt', [texts]).  A shape fixes every optional segment (present / absent) and every alternative.
+def _T(*segs): return list(segs)
+_FB = lambda decl, body: ['FUNCTION_BLOCK fb\nVAR\n  x : INT;\n  y : INT;\n  b : BOOL;\n'] + decl + ['END_VAR\n'] + body + ['END_FUNCTION_BLOCK\n']
+TEMPLATES = {
+    'subrange_type': _T('TYPE\n  r : INT(', ('alt', ['1', '-5']), '..10)', ('opt', ' := 2'), ';\nEND_TYPE\n'),
+    'array_type': _T('TYPE\n  ar : ARRAY[1..2', ('opt', ', 0..3'), '] OF INT', ('opt', ' := [1, 2, 3]'), ';\nEND_TYPE\n'),
+    'enum_type': _T('TYPE\n  c : (red', ('opt', ', green'), ')', ('opt', ' := red'), ';\nEND_TYPE\n'),
+    'struct_type': _T('TYPE\n  s : STRUCT\n    a : INT', ('opt', ' := 1'), ';\n', ('opt', '    q : BOOL := TRUE;\n'), '  END_STRUCT;\nEND_TYPE\n'),
+    'string_type': _T('TYPE\n  st : ', ('alt', ['STRING', 'WSTRING']), ('opt', '[10]'), ';\nEND_TYPE\n'),
+    'alias_type': _T('TYPE\n  al : ', ('alt', ['INT', 'REAL', 'other']), ('opt', ' := 1'), ';\nEND_TYPE\n'),
+    'var_block': _T('FUNCTION_BLOCK fb\n', ('alt', ['VAR', 'VAR_INPUT', 'VAR_OUTPUT', 'VAR_IN_OUT', 'VAR_EXTERNAL', 'VAR_TEMP']), ('alt', ['', ' RETAIN', ' CONSTANT', ' NON_RETAIN']), '\n  x : INT', ('opt', ' := 5'), ';\nEND_VAR\nEND_FUNCTION_BLOCK\n'),
+    'var_kinds': _FB([('alt', ['  v : c := red;\n', '  v : c := c#red;\n', '  v : ARRAY[1..3] OF INT;\n', '  v : ARRAY[1..2] OF INT := [1, 2];\n', '  v : INT(1..5);\n', '  v : STRING[5] := \'ab\';\n', '  v : callee;\n', '  v : callee := (in1 := TRUE);\n',
+                               '  v : st := (a := 1);\n', '  v AT %IX1.0 : BOOL;\n', '  v, w : INT;\n', '  v : (r1, r2) := r1;\n', '  v : BOOL R_EDGE;\n'])], []),
+    'literal_init': _FB(['  v : INT := ', ('alt', ['1', '-1', '+1', '16#FF', '2#1010', '8#17', '1.5', '-1.5', '1.0E3', 'TRUE', 'FALSE', 'T#1s', 'T#-1s', 'T#1h2m', 'D#2020-01-01', 'TOD#12:00:00', 'DT#2020-01-01-12:00:00',
+                                             '\'abc\'', '"abc"', 'INT#5', 'BOOL#1', 'REAL#1.5', 'WORD#16#FF', 'TIME#5ms']), ';\n'], []),
+    'assignment_expr': _FB([], ['  x := ', ('alt', ['(x + 1) * 2', 'x + 1 * 2', 'x - (y - 1)', 'NOT b', '-x', 'x <= y', 'x ** 2', 'arr[1]', 'arr[x]', 'arr[1, 2]', 's.a', 'x MOD 2', 'b AND (x > 1) OR b', 'b XOR b', 'x <> y', '1', '-1', 'TRUE', 'T#1s', '2.5']), ';\n']),
+    'assignment_target': _FB([], ['  ', ('alt', ['x', 'arr[1]', 'arr[x]', 's.a', 's.t.u', 'arr[1].a']), ' := 1;\n']),
+    'if_statement': _FB([], ['  IF b THEN\n    x := 1;\n', ('opt', '  ELSIF x = 2 THEN\n    x := 3;\n'), ('opt', '  ELSIF x = 4 THEN\n    x := 5;\n'), ('opt', '  ELSE\n    x := 6;\n'), '  END_IF;\n']),
+    'case_statement': _FB([], ['  CASE x OF\n    ', ('alt', ['1', '1, 2', '1..3', '1, 3..5', '-1']), ':\n      y := 1;\n', ('opt', '    7:\n      y := 2;\n'), ('opt', '  ELSE\n    y := 3;\n'), '  END_CASE;\n']),
+    'for_statement': _FB([], ['  FOR x := 1 TO 10', ('opt', ' BY 2'), ' DO\n    y := x;\n  END_FOR;\n']),
+    'loops': _FB([], ['  ', ('alt', ['WHILE b DO\n    x := 1;\n  END_WHILE', 'REPEAT\n    x := 1;\n  UNTIL b\n  END_REPEAT', 'WHILE b DO\n    EXIT;\n  END_WHILE', 'RETURN', 'WHILE b DO\n    x := 1;\n    y := 2;\n  END_WHILE']), ';\n']),
+    'fb_call': _FB([], ['  inst(', ('alt', ['', 'in1 := TRUE', 'in1 := TRUE, in2 := x', 'in1 := TRUE, out1 => b', 'out1 => b', 'NOT out1 => b', 'TRUE', 'TRUE, x']), ');\n']),
+    'function_call': _FB([], ['  x := f(', ('alt', ['', '1', '1, 2', 'a := 1', 'a := 1, q := 2', 'x + 1']), ');\n']),
+    'function_decl': _T('FUNCTION f : ', ('alt', ['INT', 'BOOL', 'other']), '\nVAR_INPUT\n  a : INT;\nEND_VAR\n', ('opt', 'VAR\n  t : INT;\nEND_VAR\n'), '  f := a;\nEND_FUNCTION\n'),
+    'program_decl': _T('PROGRAM p\n', ('opt', 'VAR_INPUT\n  i : INT;\nEND_VAR\n'), ('opt', 'VAR\n  t : INT;\nEND_VAR\n'), ('opt', 'VAR_ACCESS\n  ac : r.p.x : INT READ_WRITE;\nEND_VAR\n'), '  t := 1;\nEND_PROGRAM\n'),
+    'configuration': _T('CONFIGURATION c\n', ('opt', 'VAR_GLOBAL\n  g : INT;\nEND_VAR\n'), 'RESOURCE r ON PLC\n  TASK t(', ('opt', 'INTERVAL := T#100ms, '), 'PRIORITY := 1);\n  PROGRAM ', ('alt', ['', 'RETAIN ', 'NON_RETAIN ']), 'inst', ('opt', ' WITH t'), ' : p',
+                        ('alt', ['', '(a := 1)', '(a := 1, o => g)']), ';\nEND_RESOURCE\nEND_CONFIGURATION\n'),
+    'configuration_globals': _T('CONFIGURATION c\nVAR_GLOBAL', ('alt', ['', ' CONSTANT', ' RETAIN']), '\n  g', ('opt', ' AT %QX0.0'), ' : ', ('alt', ['INT', 'BOOL']), ('opt', ' := 1'), ';\nEND_VAR\nRESOURCE r ON PLC\n  TASK t(PRIORITY := 1);\n  PROGRAM inst WITH t : p;\nEND_RESOURCE\nEND_CONFIGURATION\n'),
+    'sfc_action_association': _T('FUNCTION_BLOCK fb\nVAR\n  done : BOOL;\n  busy : BOOL;\nEND_VAR\nINITIAL_STEP Start:\nEND_STEP\nSTEP Work:\n  act(', ('alt', ['', 'N', 'R', 'S', 'P']), ('opt', ', done'), ('opt', ', busy'),
+                                 ');\nEND_STEP\nTRANSITION FROM Start TO Work\n  := TRUE;\nEND_TRANSITION\nACTION act:\n  done := TRUE;\nEND_ACTION\nEND_FUNCTION_BLOCK\n'),
+    'sfc_transition': _T('FUNCTION_BLOCK fb\nVAR\n  done : BOOL;\nEND_VAR\nINITIAL_STEP Start:\nEND_STEP\nSTEP Work:\nEND_STEP\n', ('opt', 'STEP Other:\nEND_STEP\n'), 'TRANSITION ', ('opt', 'tr1 '), ('opt', '(PRIORITY := 2) '), 'FROM ', ('alt', ['Start', '(Start, Work)']),
+                         ' TO ', ('alt', ['Work', '(Work, Start)']), '\n  := ', ('alt', ['TRUE', 'done', 'NOT done']), ';\nEND_TRANSITION\nEND_FUNCTION_BLOCK\n'),
+}
+# segments of a body template may name declarations that need context; give every function block body the same context declarations
+_CONTEXT = 'TYPE\n  c : (red, green) := red;\n  st : STRUCT\n    a : INT;\n  END_STRUCT;\nEND_TYPE\nFUNCTION_BLOCK callee\nVAR_INPUT\n  in1 : BOOL;\n  in2 : INT;\nEND_VAR\nVAR_OUTPUT\n  out1 : BOOL;\nEND_VAR\nEND_FUNCTION_BLOCK\n'
+
+def _shapes(tpl):
+    dims = [2 if isinstance(s, tuple) and s[0] == 'opt' else len(s[1]) for s in tpl if isinstance(s, tuple)]
+    return dims
+
+def _tpl_text(tpl, choice):
+    out = []; k = 0
+    for s in tpl:
+        if isinstance(s, str): out.append(s); continue
+        c = choice[k]; k += 1
+        if s[0] == 'opt': out.append(s[1] if c else '')
+        else: out.append(s[1][c])
+    return ''.join(out)
+
+def _seg_label(seg, c):
+    if seg[0] == 'opt': return 'with' if c else 'without'
+    return re.sub(r'[^A-Za-z0-9#.<>=:*+-]+', '_', seg[1][c]).strip('_')[:24] or 'none'
+
+def _cubes(tpl, shapes):
+    """Group the failing shapes of a template into maximal cubes: a selector is replaced by `*` when, the others fixed, every value of it
+    that the parser accepts fails.  Deterministic; returns [(role suffix, representative choice, member choices)]."""
+    import itertools
+    segs = [s for s in tpl if isinstance(s, tuple)]
+    dims = _shapes(tpl)
+    fail = {c for c, r in shapes.items() if r[0] == 'fail'}
+    indom = {c for c, r in shapes.items() if r[0] in ('fail', 'ok', 'inconclusive')}
+    out = {}
+    for c in sorted(fail):
+        cube = [{v} for v in c]
+        for i in range(len(dims)):
+            wide = list(cube); wide[i] = set(range(dims[i]))
+            members = [m for m in itertools.product(*[sorted(x) for x in wide]) if m in indom]
+            if members and all(m in fail for m in members): cube = wide
+        members = tuple(m for m in itertools.product(*[sorted(x) for x in cube]) if m in indom)
+        label = '/'.join('any' if (len(cube[i]) == dims[i] and dims[i] > 1) else _seg_label(segs[i], c[i]) for i in range(len(dims)))
+        out.setdefault(label, (c, members))
+    return [(lab, rep, mem) for lab, (rep, mem) in sorted(out.items())]
+
+def _k3_job(job):
+    name, prefixes = job
+    ctx = _CTX; part = Part(); part.shapes = {}; part.tname = name; tpl = TEMPLATES[name]
+    P = ctx.program()
+    k_parse = P.find_fn('ironplc-parser', 'parse_program'); k_write = P.find_fn('ironplc-plc2plc', 'write_to_string')
+    k_eq = P.impl_all.get(('Library', 'PartialEq', 'eq'))
+    k_opt = [k for k in P.items if k[0] == 'ironplc-parser' and re.search(r'ParseOptions as (std::default::)?Default>::default|options::<impl at [^>]*>::default', k[1])]
+    if not k_eq: part.inconc('Library::eq not found'); return part
+    holder = {}; st = {}
+    M = Machine(P, stubs=dyn_lexer_stubs(ctx, holder), max_steps=400_000_000)
+    dims = _shapes(tpl)
+    def entry(M):
+        choice = []
+        for i, d in enumerate(dims):
+            v = M.fresh_bv('seg%d' % i, 8); M.declare_domain(v, list(range(d)))
+            c = 0
+            for val in range(d - 1):
+                if M.branch(v == val): c = val; break
+                c = val + 1
+            choice.append(c)
+        st['choice'] = choice
+        text = _tpl_text(tpl, choice); st['src'] = text
+        fid = Ref(Cell(Agg('FileId', [Str('f.st')])))
+        opts = Ref(Cell(M.call_fn(k_opt[0], []) if k_opt else Agg('ParseOptions', [False])))
+        r1 = M.call_fn(k_parse, [Ref(Cell(Str(text))), fid, opts])
+        if r1.disc != 0: return ('not-a-program', None)
+        lib = r1.f[0]
+        r = M.call_fn(k_write, [Ref(Cell(lib))])
+        if r.disc != 0: return ('render-error', None)
+        out = r.f[0]; st['text'] = out.conc()
+        r2 = M.call_fn(k_parse, [Ref(Cell(Str(list(out.b)))), fid, opts])
+        if r2.disc != 0: return ('not-reparsable', None)
+        same = M.call_fn(k_eq[0], [Ref(Cell(lib)), Ref(Cell(r2.f[0]))])
+        return ('ok', same)
+    def on_path(M, pr):
+        part.paths += 1
+        src = st.get('src'); choice = tuple(st.get('choice') or ())
+        if pr.inconclusive: part.inconc('%s: %s' % (name, pr.inconclusive)); part.shapes[choice] = ('inconclusive', pr.inconclusive[:80], src, None); return
+        if pr.panic: part.shapes[choice] = ('fail', 'parsing, rendering or re-parsing panics: %s' % pr.panic.msg[:80], src, None); part.nontrivial += 1; return
+        kind, same = pr.result
+        if kind == 'not-a-program': part.shapes[choice] = ('outside', None, src, None); return
+        part.nontrivial += 1
+        text = st.get('text')
+        if kind == 'render-error': part.shapes[choice] = ('fail', 'the renderer reports an error for a library the parser produced', src, text); return
+        if kind == 'not-reparsable': part.shapes[choice] = ('fail', 'the rendered text is not accepted by the parser', src, text); return
+        same = simp(same)
+        if same is not True: part.shapes[choice] = ('fail', 'the rendered text parses to a different library', src, text)
+        else: part.shapes[choice] = ('ok', None, src, text)
+        if len(part.samples) < 1: part.samples.append({'template': name, 'shape': list(choice), 'rendered_bytes': len(text or '')})
+    if prefixes == 'split':
+        done, pending = M.split(entry, 1)
+        return [d.trace for d in done] + pending
+    M.explore(entry, on_path, prefixes=prefixes)
+    part.queries += M.stats['smt']; part.encoded = set(M.encoded); part.models = set(M.models_used)
+    return part
+
+@kernel('K3 renderer.template_shapes_roundtrip')
+def k3(ctx, kr):
+    global _CTX
+    _CTX = ctx
+    names = list(TEMPLATES)
+    import itertools
+    nshapes = {n: len(list(itertools.product(*[range(d) for d in _shapes(TEMPLATES[n])]))) for n in names}
+    kr.bounds = ('%d source templates with optional segments and alternatives (%d shapes in total; the shape selectors are symbolic, everything else concrete): parse_program -> write_to_string -> parse_program -> Library::eq, all run on the MIR of the tree; '
+                 'shapes the parser rejects are outside the domain' % (len(names), sum(nshapes.values())))
+    jobs = []
+    for n in sorted(names, key=lambda n: -nshapes[n]):
+        dims = _shapes(TEMPLATES[n])
+        # one job per value of the first selector
+        first = dims[0] if dims else 1
+        for v in range(first):
+            jobs.append((n, None) if first == 1 else (n, [_prefix_for(first, v)]))
+    shapes = {n: {} for n in names}
+    for part in par_map(_k3_job, jobs):
+        shapes[part.tname].update(part.shapes); merge_part(kr, part)
+    nfail = 0
+    for n in names:
+        sh = shapes[n]
+        for lab, rep, members in _cubes(TEMPLATES[n], sh):
+            st_, what, src, text = sh[rep]; nfail += len(members)
+            kr.findings.append(Finding('C10/K3/%s/%s' % (n, lab), '%s (%d shape%s of template %s; e.g. source %r is rendered as %r)' % (what, len(members), 's' if len(members) > 1 else '', n, src[-120:], (text or '')[-120:]),
+                                       {'source': src, 'rendered': text, 'shapes': [list(m) for m in members][:12]}, replay=REPLAYS['roundtrip'](src)))
+        oks = [c for c, r in sh.items() if r[0] == 'ok']
+        if oks and len(kr.validate) < 8: kr.validate.append(('roundtrip', (sh[sorted(oks)[0]][2],)))
+    kr.notes.append('shapes: %d round-trip, %d fail, %d outside the parser\'s domain' % (sum(1 for n in names for r in shapes[n].values() if r[0] == 'ok'), nfail, sum(1 for n in names for r in shapes[n].values() if r[0] == 'outside')))
+    P = ctx.program()
+    kr.functions = fn_paths(P, getattr(kr, '_enc', set()))[:120] + ['ironplc-parser::<TokenType as Logos>::lex (lifted)']
+    kr.stubs = LC.STUB_NOTES + ['concrete f64 values evaluated natively (floating point is not encoded symbolically)']
+    kr.exhaustive = True
+    kr.outside = ['constructs and combinations not in the templates; identifiers and literal values other than those written in the templates (leaf values: K1)']
+
+def _prefix_for(d, v):
+    """decision trace selecting value v of a selector with d values: branch(v == 0) false, ..., branch(v == val) true  (choose index 0 = condition true)"""
+    return [1] * v + ([0] if v < d - 1 else [])
+
+KERNELS = [k1, k2, k3]
